@@ -11,7 +11,7 @@ from harness.core import lean, sp, child
 from harness.checks import iter_common as I
 
 ASSUMPTIONS = ["the bound concerns source elements read/decoded (shard files opened), not the list of shard path strings",
-               "memory held inside TensorFlow and the Rust extension is out of scope (C15 covers the Rust protocol's one-task-per-worker bound)"]
+               "memory held inside TensorFlow is out of scope; for the Rust reader the bound is on items pulled from the shard list by parallel_map (one outstanding task per worker), measured in a cargo harness"]
 TRUSTED = ["modelled-not-verified: tf.data prefetching, Rust worker threads"]
 
 
@@ -122,6 +122,31 @@ def bound_opens(iface, shuffle, T, k, eps):
     return None
 
 
+def rust_readahead(ctx):
+    """parallel_map driven directly (the cargo harness of C15): items pulled from the input iterator for k results, and by the
+    time the iterator is dropped, never exceed k + threads."""
+    from harness.checks import c15
+    lines, traces, rc, tail = c15.cargo_harness(ctx, long_stall_ms=1)
+    n = 0
+    for l in lines:
+        if l["kind"] != "drop":
+            continue
+        n += 1
+        allowed = l["k"] + min(l["threads"], l["n"])
+        if max(l.get("pulled", 0), l.get("pulled_before_drop", 0)) > allowed:
+            ctx.report({"kind": "rust-read-ahead", "iface": "rust"},
+                       f"parallel_map(n={l['n']}, threads={l['threads']}): {l.get('pulled_before_drop')} items pulled for {l['k']} results, {l.get('pulled')} by the time the iterator "
+                       f"was dropped (bound {allowed})", {"case": l})
+    if not n:
+        raise RuntimeError(f"cargo harness produced no drop case (rc={rc}): {tail[-300:]}")
+    # the recorded channel operations: nothing pulls more work once the iterator is dropped (a `next` after `drop`)
+    late = [t for t in traces if "d0" in t["trace"].split() and "n" in [x[0] for x in t["trace"].split()[t["trace"].split().index("d0"):]]]
+    if late and not ctx.violations:
+        ctx.report({"kind": "rust-read-ahead", "iface": "rust", "what": "next-after-drop"},
+                   f"parallel_map keeps calling next() while it is being dropped (n={late[0]['n']}, threads={late[0]['threads']}, k={late[0]['k']})", {"case": {k: late[0][k] for k in ("n", "threads", "k")}})
+    return n
+
+
 def run(ctx):
     rng = ctx.rng("c14")
     # ---- stage level
@@ -217,6 +242,8 @@ def run(ctx):
             tol = 1 if not key[0].startswith("tf") else (key[2] or 1) + 2      # tf.data prefetches in its own threads: timing-dependent by a few shards
             if max(v) - min(v) > tol and key[1] == 0:
                 ctx.report({"kind": "opens-depend-on-size", "iface": key[0]}, f"{key}: shard opens vary with the dataset size: {v}", {"case": r["case"]})
+    nrust = rust_readahead(ctx)
+    ctx.cov["rust_drop_cases"] = nrust
     if corr_bad and not ctx.violations and not ctx.known_hits:
         ctx.report({"kind": "correspondence"}, "read-ahead measured on the real generator differs from the monitor's",
                    {"correspondence": "M-ITER max_ahead/max_open vs measured", "theorem": "Sedpack.Pipe.C14_shuffle_buffer_readahead / C14_round_robin_readahead", "cases": corr_bad[:3]},
@@ -226,7 +253,8 @@ def run(ctx):
         "traces_validated_against_impl": len(obs) - len(corr_bad),
         "rule": "shuffle_buffer / round_robin on counting sources: b in {1,2,3,7}, lengths around b, infinite sources with take in {1,b,2b+1}; "
                 "LazyPool(T) for T in {1,2,4} on inputs of length 60, 600 and infinite; end to end: shard files opened for 7 examples of a "
-                "repeating stream over datasets of 12/40(/160) shards through sync/concurrent/async, shuffled and not",
+                "repeating stream over datasets of 12/40(/160) shards through sync/concurrent/async, shuffled and not; Rust: items parallel_map pulls from its input "
+                "for k results and by the time it is dropped (cargo harness, 1..9 threads, n up to 13), and no next() after drop in the recorded channel operations",
         "samples": [{"stage": k, "b": b, "n": n, "take": t, "trace": lg[:16]} for k, b, n, t, lg, _ in obs[8:10]] + pres[:2],
         "input_distribution": {"stage_traces": len(obs), "pool_runs": len(pres), "e2e_runs": nrun,
                                "pool_max_ahead": {str(T): sorted({r['max_ahead'] for r in rs}) for T, rs in byT.items()}},
